@@ -23,6 +23,7 @@ import (
 	"net/netip"
 	"sort"
 	"strings"
+	"sync"
 	"time"
 
 	"github.com/miekg/dns"
@@ -34,6 +35,7 @@ import (
 	"github.com/semihalev/sdns/middleware"
 	"github.com/semihalev/sdns/middleware/cache"
 	"github.com/semihalev/sdns/middleware/edns"
+	"github.com/semihalev/sdns/middleware/failover"
 )
 
 // ------------------------------------------------------------------ op syntax
@@ -697,6 +699,49 @@ func optsOf(m *dns.Msg) string {
 	return renderOpts(o.Option, true)
 }
 
+// fbServer is a scripted fallback resolver on loopback: it answers every query and
+// keeps the OPT options of the last one it received.
+type fbServer struct {
+	addr string
+	mu   sync.Mutex
+	seen []dns.EDNS0
+	n    int
+}
+
+var fbOnce *fbServer
+
+func fallbackServer() *fbServer {
+	if fbOnce != nil {
+		return fbOnce
+	}
+	pc, err := net.ListenPacket("udp", "127.0.0.1:0")
+	if err != nil {
+		panic(err)
+	}
+	fb := &fbServer{addr: pc.LocalAddr().String()}
+	srv := &dns.Server{PacketConn: pc, Handler: dns.HandlerFunc(func(w dns.ResponseWriter, r *dns.Msg) {
+		fb.mu.Lock()
+		fb.n++
+		fb.seen = nil
+		for _, rr := range r.Extra {
+			if o, ok := rr.(*dns.OPT); ok {
+				fb.seen = append(fb.seen, o.Option...)
+			}
+		}
+		fb.mu.Unlock()
+		m := new(dns.Msg)
+		m.SetReply(r)
+		m.RecursionAvailable = true
+		if len(r.Question) == 1 {
+			m.Answer = []dns.RR{&dns.A{Hdr: dns.RR_Header{Name: r.Question[0].Name, Rrtype: dns.TypeA, Class: dns.ClassINET, Ttl: 60}, A: ansIP(7)}}
+		}
+		_ = w.WriteMsg(m)
+	})}
+	go func() { _ = srv.ActivateAndServe() }()
+	fbOnce = fb
+	return fb
+}
+
 func renderPolicy(p *ecs.Policy) string {
 	if p == nil {
 		return "nil"
@@ -1143,6 +1188,42 @@ func exec(op string) vlib.Res {
 			tags = "nt"
 		}
 		return vlib.Res{Impl: impl, Oracle: or, Tags: tags}
+	case "ecs capttl":
+		// ecs capttl <cap s> <ttl s> <scoped t|f>: the lifetime the real store gives an
+		// entry (cache.New with cache_limit_ttl = cap; Store.SetFromResponseScoped / …WithKey)
+		capS, ttl, scoped := vlib.Atoi(a[0]), vlib.Atoi(a[1]), a[2] == "t"
+		cfg := &config.Config{CacheSize: 1024, Expire: 600}
+		cfg.ECS = config.ECSConfig{Enabled: true, CacheLimitTTL: config.Duration{Duration: time.Duration(capS) * time.Second}}
+		ca := cache.New(cfg)
+		defer ca.Stop()
+		m := new(dns.Msg)
+		m.SetQuestion("capttl.c19.test.", dns.TypeA)
+		m.Response = true
+		m.Answer = []dns.RR{&dns.A{Hdr: dns.RR_Header{Name: "capttl.c19.test.", Rrtype: dns.TypeA, Class: dns.ClassINET, Ttl: uint32(ttl)}, A: ansIP(1)}}
+		store := ca.Store().(*cache.Store)
+		scope := netip.Prefix{}
+		if scoped {
+			scope = netip.MustParsePrefix("10.1.2.0/24")
+		}
+		key := cache.CacheKey{Question: m.Question[0], Scope: scope}.Hash()
+		if scoped {
+			store.SetFromResponseScoped(key, m, scope, time.Time{}, 0)
+		} else {
+			store.SetFromResponseWithKey(key, m, time.Time{}, 0)
+		}
+		got := -1
+		for _, e := range cache.VerifC19Entries(ca) {
+			got = int(e.TTL / time.Second)
+		}
+		or := "ok"
+		if scoped && capS > 0 && got > capS {
+			or = fail("scoped/ttl-above-cap", "ttl=%d cap=%d (store level)", got, capS)
+		}
+		tags := ""
+		if capS > 0 && capS < 5 || ttl < 5 || ttl > 86400 {
+			tags = "nt,ttl-bounds"
+		}
+		return vlib.Res{Impl: fmt.Sprintf("ttl=%d", got), Oracle: or, Tags: tags}
 	case "ecs readscope":
 		opts, has := parseOpts(a[0])
 		m := new(dns.Msg)
@@ -1361,6 +1442,59 @@ func exec(op string) vlib.Res {
 		}
 		p.rawFallback = false
 		return vlib.Res{Impl: fmt.Sprintf("rcode=%d ropt=%s", reply.Rcode, ropt), Oracle: or, Tags: "nt,rejection-" + a[2]}
+	case "pipe failover":
+		// pipe failover <client> <proto> <copts>: the primary resolution ends in SERVFAIL;
+		// the real failover middleware asks a scripted fallback server, which records
+		// the OPT of what it is sent
+		p := pipe
+		c, proto := parseClient(a[0]), a[1]
+		fb := fallbackServer()
+		fo := failover.New(&config.Config{FallbackServers: []string{fb.addr}})
+		sf := middleware.HandlerFunc(func(_ context.Context, ch *middleware.Chain) {
+			m := new(dns.Msg)
+			m.SetRcode(ch.Request.Msg(), dns.RcodeServerFailure)
+			m.RecursionDesired = true
+			_ = ch.Writer.WriteMsg(m)
+			ch.Cancel()
+		})
+		cr := buildClient("fo.c19.test.", dns.TypeA, false, false, a[2])
+		fb.mu.Lock()
+		fb.seen, fb.n = nil, 0
+		fb.mu.Unlock()
+		p.handlers = []middleware.Handler{p.ed, fo, sf}
+		reply := p.run(c, proto, cr)
+		p.handlers = nil
+		p.rawFallback = false
+		if p.formerr {
+			return vlib.Res{Impl: "formerr", Oracle: "ok", Tags: "raw-undecodable"}
+		}
+		if reply == nil {
+			return vlib.Res{Impl: "noreply", Oracle: fail("pipe/no-reply", "")}
+		}
+		fb.mu.Lock()
+		seen, n := fb.seen, fb.n
+		fb.mu.Unlock()
+		fbS := "none"
+		or := ""
+		if n > 0 {
+			fbS = renderOpts(seen, true)
+			if v := checkForwarded(p.spec, c, true, cr.sent, seen); v != "" {
+				or = strings.Replace(v, "sig=upstream/", "sig=upstream/fallback/", 1)
+			}
+		}
+		if or == "" {
+			if v := checkReply(allReplyOpts(reply)); v != "" {
+				or = v
+			}
+		}
+		if or == "" {
+			or = "ok"
+		}
+		tags := "nt,failover"
+		if p.wireUsed {
+			tags += ",wire-born"
+		}
+		return vlib.Res{Impl: fmt.Sprintf("fb=%s rcode=%d", fbS, reply.Rcode), Oracle: or, Tags: tags}
 	case "pipe badvers":
 		return pipeBadVers(a)
 	case "pipe nx":
@@ -1421,6 +1555,8 @@ func facts() map[string]any {
 	out["duplicate_network_accepted"] = pdup != nil && errdup == nil && len(pdup.ClientNetworks) == 2
 	// option codes as the library numbers them
 	out["code_subnet"] = int((&dns.EDNS0_SUBNET{Code: dns.EDNS0SUBNET}).Option())
+	out["min_cache_ttl_s"] = int(dnsutil.MinCacheTTL / time.Second)
+	out["max_cache_ttl_s"] = int(dnsutil.MaxCacheTTL / time.Second)
 	out["code_cookie"] = int(dns.EDNS0COOKIE)
 	out["code_keepalive"] = int(dns.EDNS0TCPKEEPALIVE)
 	// shipped configuration: [ecs] block of the generated default config
